@@ -10,6 +10,9 @@ package main
 //   9 NormalDist PDF/CDF/InvCDF replay
 //  10 distribution sweep: values of the implementation as data (tests, not proofs)
 //  11 certified reference points of the t CDF
+//  12 slope of the t CDF at the origin
+//  13 PDF values on a dyadic grid + CDF at both ends, for quadrature (c12quad.go)
+//  14 second table of certified reference points: t and normal, PDF and CDF (c12quad.go, c12reftab.go)
 
 import (
 	"fmt"
@@ -1107,7 +1110,7 @@ func genC12Sweeps(o *hx.Out, r *hx.Rng, tier string) {
 }
 
 func genC12(o *hx.Out, r *hx.Rng, tier string, replay string) error {
-	o.Rule = "C12 cases: (1) descriptive statistics of samples of 1-300 finite values (11 shapes x 3 orders x sorted flag) with 11 percentiles each; (2) the four t-tests on raw samples (incl. empty, single, constant, mismatched) and on summary triples (zero/non-integer weights, zero variance, unknown hypothesis); (3-6) mathBetaInc/betacf/TDist.CDF/PDF replay with oracle tables for nu in [1,1e5] incl. non-integers; (7-8) generic InvCDF and bisectBool replay; (9) NormalDist replay; (10) sweeps of the implementation as data; (11) certified reference points. non-trivial = the case exercises the main path (sample of >= 2 values, test without error, 0<x<1, ...); distinct by inputs"
+	o.Rule = "C12 cases: (1) descriptive statistics of samples of 1-300 finite values (11 shapes x 3 orders x sorted flag) with 11 percentiles each; (2) the four t-tests on raw samples (incl. empty, single, constant, mismatched) and on summary triples (zero/non-integer weights, zero variance, unknown hypothesis); (3-6) mathBetaInc/betacf/TDist.CDF/PDF replay with oracle tables for nu in [1,1e5] incl. non-integers; (7-8) generic InvCDF and bisectBool replay; (9) NormalDist replay; (10) sweeps of the implementation as data; (11) certified reference points; (13) PDF values on 65-point dyadic grids with the CDF at both ends (Student t, nu in [1,1e5] incl. non-integers; normal), for quadrature; (14) second table of certified reference points (t and normal, PDF and CDF). non-trivial = the case exercises the main path (sample of >= 2 values, test without error, 0<x<1, ...); distinct by inputs"
 	mult := 1
 	if tier == "thorough" {
 		mult = 40
@@ -1123,6 +1126,7 @@ func genC12(o *hx.Out, r *hx.Rng, tier string, replay string) error {
 		c12Normal(o, rn)
 	}
 	genC12Sweeps(o, r.Split(), tier)
+	genC12Quad(o, r.Split(), tier)
 	o.Extra["max_observed_deviations"] = C12Calib
 	return nil
 }
